@@ -30,6 +30,7 @@ type Options struct {
 var DefaultOptions = Options{MaxDepth: 4, MaxTemplates: 3, Ticks: true, Extras: true}
 
 type gen struct {
+	noTick    int // > 0: traced expressions are not generated (see NoTracedClassInCond)
 	inCond    bool
 	t         *rapid.T
 	o         Options
@@ -65,7 +66,11 @@ func (g *gen) strExprTop(depth int, top bool) Expr {
 	case 2, 3:
 		return Expr{Kind: "strlit", Str: rapid.SampledFrom(litPool).Draw(g.t, "lit"), Lit: rapid.SampledFrom(litForms).Draw(g.t, "form")}
 	case 4:
-		if g.o.Ticks {
+		if g.o.Ticks && g.noTick > 0 {
+			if g.o.Excluded != nil {
+				g.o.Excluded()
+			}
+		} else if g.o.Ticks {
 			return Expr{Kind: "tick", Str: g.id("t")}
 		}
 		return Expr{Kind: "var", Str: "s2"}
@@ -189,7 +194,13 @@ func (g *gen) attr(depth int, elem string) Attr {
 			}
 			it := ClassItem{Kind: "str", E: &e}
 			if rapid.Bool().Draw(g.t, "kv") {
+				if g.inCond && g.o.NoTracedClassInCond {
+					g.noTick++ // the condition of a KV entry is hoisted with the rest of the class expression
+				}
 				c := g.boolExpr(0)
+				if g.inCond && g.o.NoTracedClassInCond {
+					g.noTick--
+				}
 				it = ClassItem{Kind: "kv", E: &e, Cond: &c}
 			}
 			a.Items = append(a.Items, it)
